@@ -440,7 +440,7 @@ def c16(prop, tier, t0):
 
 @check("C17")
 def c17(prop, tier, t0):
-    m, cov = engb_run(prop, tier, "c17", 0, shards=6 if tier == "quick" else vlib.NCPU)
+    m, cov = engb_run(prop, tier, "c17", 0, shards=7 if tier == "quick" else vlib.NCPU)
     cov.pop("preemption_bound", None)
     cov["explanation"] = ("the real ProcessEvents with its real LED refresh loop (instrumented, virtual time, fake OpenRGB server) is walked, for 6 LED layouts (thorough: plus every rotation of the full layout and every layout with one LED missing), through every combination of mapping (3, one named Control) x channel "
                           "x octave x semitone x held-key sets x MIDI-input notes on the current / another channel incl. NoteOff, NoteOn velocity 0 and panic; after every step a frame computed strictly after the step "
@@ -451,6 +451,7 @@ def c17(prop, tier, t0):
         "quick: channels {1,2,16}, octave -1..1; thorough: channels {1,2,3,9,15,16}, octave -2..2; semitone -1..1; 5 held-key sets; 3 mappings",
         "where several highlights apply to one LED any of them is accepted; LEDs of unmapped keys and unknown LED names are not judged; malformed controller descriptions (no LEDs, colours/LED count mismatch) are not generated",
         "the LED-name <-> key table is taken from the code (device.KeyToLedName)",
+        "single-mapping configuration: the mapping_up key is judged against its look at the LAST of three mappings and the mapping_down key against its look at the FIRST one (each key shows whether its own direction leads anywhere); learned in a reference run with three mappings in the same process",
     ], t0)
 
 
